@@ -72,55 +72,60 @@ Proof.
     rewrite R; cbn [bind]; [left; destruct ret; eexists; reflexivity|right; eexists; reflexivity].
 Qed.
 
-(* ------------------------------------------------------------------ CheckControlStatement: never raises; its helper check_nest loops
-   `while depth > 0` without looking for the end of the tokens, so with unbalanced parentheses it would not return (Hang in the
-   model) - IsControlStatement only matches when Context.skip_nest found the closing parenthesis *)
-Lemma nest_loop_outcomes toks scope : forall fuel i d E v,
-  (exists r, check_control_nest_loop1 fuel toks scope i d E v = Ok r) \/ check_control_nest_loop1 fuel toks scope i d E v = Hang.
+(* ------------------------------------------------------------------ CheckControlStatement: total.  Its helper check_nest stops at the
+   end of the tokens (`while depth > 0 and context.peek_token(i) is not None`): the index grows in every turn, no fuel runs out,
+   every new_error has its token *)
+Lemma nest_loop_total toks scope : forall fuel i d E v, 0 <= i -> Z.max 0 (zlen toks - i) < Z.of_nat fuel ->
+  exists r, check_control_nest_loop1 fuel toks scope i d E v = Ok r.
 Proof.
-  induction fuel as [|f IH]; intros i d E v; [right; reflexivity|].
+  induction fuel as [|f IH]; intros i d E v Hi Hf; [lia|].
   cbn [check_control_nest_loop1]. cbv zeta.
+  destruct ((d >? 0) && negb (is_none (peek toks i))) eqn:C; [|eexists; reflexivity].
+  apply andb_true_iff in C as [_ C]. destruct (peek toks i) as [ti|] eqn:Pi; [|discriminate].
+  pose proof (peek_some_lt toks i ti Hi Pi) as Hil.
   repeat first
-    [ match goal with |- (exists r, Ok _ = Ok r) \/ _ => left; eexists; reflexivity end
-    | match goal with |- (exists r, check_control_nest_loop1 _ _ _ _ _ _ _ = Ok r) \/ _ => apply IH end
+    [ match goal with |- exists r, Ok _ = Ok r => eexists; reflexivity end
+    | match goal with |- exists r, check_control_nest_loop1 _ _ _ _ _ _ _ = Ok r => apply IH; lia end
     | progress cbn [emit bind]
-    | match goal with |- context [if ?c then _ else _] => let Q := fresh "Q" in destruct c eqn:Q; conds end
-    | match goal with Q : is_true (checkl ?t ?e _) = true |- context [emit _ (peek ?t ?e) _] =>
-        let tt := fresh "tt" in let PP := fresh "PP" in destruct (is_truel_some _ _ _ Q) as [tt PP]; rewrite PP end ].
+    | match goal with |- context [if ?c then _ else _] => let Q := fresh "Q" in destruct c eqn:Q; conds end ].
 Qed.
 
-Lemma control_nest_outcomes toks scope v i E :
-  (exists r, check_control_nest toks scope v i E = Ok r) \/ check_control_nest toks scope v i E = Hang.
+Lemma control_nest_total toks scope v i E : 0 <= i -> exists r, check_control_nest toks scope v i E = Ok r.
 Proof.
-  unfold check_control_nest. cbv zeta.
-  destruct (nest_loop_outcomes toks scope (loop_fuel toks) (i + 1) 1 E v) as [[[ret [[[i1 d1] E1] v1]] R]|R]; rewrite R; cbn [bind];
-    [left; destruct ret; eexists; reflexivity|right; reflexivity].
+  intros Hi. unfold check_control_nest. cbv zeta.
+  destruct (nest_loop_total toks scope (loop_fuel toks) (i + 1) 1 E v) as [[ret [[[i1 d1] E1] v1]] R]; [lia|unfold loop_fuel, zlen; lia|].
+  rewrite R. cbn [bind]. destruct ret; eexists; reflexivity.
 Qed.
 
-Lemma control_loop_outcomes toks scope : forall fuel i E v, 0 <= i -> Z.max 0 (zlen toks - i) < Z.of_nat fuel ->
-  (exists r, check_control_statement_loop1 fuel toks scope i E v = Ok r) \/ check_control_statement_loop1 fuel toks scope i E v = Hang.
+Lemma control_loop_total toks scope : forall fuel i E v, 0 <= i -> Z.max 0 (zlen toks - i) < Z.of_nat fuel ->
+  exists r, check_control_statement_loop1 fuel toks scope i E v = Ok r.
 Proof.
   induction fuel as [|f IH]; intros i E v Hi Hf; [lia|].
   cbn [check_control_statement_loop1].
-  destruct (is_false (check1 toks i (s "NEWLINE"))) eqn:Q0; [|left; eexists; reflexivity].
+  destruct (is_false (check1 toks i (s "NEWLINE"))) eqn:Q0; [|eexists; reflexivity].
   destruct (is_false_some _ _ _ Q0) as [ti Pi]. pose proof (peek_some_lt toks i ti Hi Pi) as Hil. rewrite Pi.
-  destruct (is_true (check1 toks i (s "SEMI_COLON"))); cbn [emit bind]; [left; eexists; reflexivity|].
-  destruct (is_true (checkl toks i control_forbidden_cs)); cbn [emit bind]; [left; eexists; reflexivity|].
+  destruct (is_true (check1 toks i (s "SEMI_COLON"))); cbn [emit bind]; [eexists; reflexivity|].
+  destruct (is_true (checkl toks i control_forbidden_cs)); cbn [emit bind]; [eexists; reflexivity|].
   destruct (is_true (check1 toks i (s "LPARENTHESIS"))); [|apply IH; lia].
-  destruct (control_nest_outcomes toks scope v i E) as [[[b E1] R]|R]; rewrite R; cbn [bind]; [|right; reflexivity].
-  destruct b; [left; eexists; reflexivity|apply IH; lia].
+  destruct (control_nest_total toks scope v i E Hi) as [[b E1] R]. rewrite R. cbn [bind].
+  destruct b; [eexists; reflexivity|apply IH; lia].
 Qed.
 
-Theorem check_control_statement_outcomes : forall toks scope v, toks <> [] ->
-  (exists r, check_control_statement toks scope v = Ok r) \/ check_control_statement toks scope v = Hang.
+Theorem check_control_statement_total : forall toks scope v, toks <> [] -> exists r, check_control_statement toks scope v = Ok r.
 Proof.
   intros toks scope v Ht. destruct (nonempty_peek0 toks Ht) as [t0 P0].
   unfold check_control_statement. cbv zeta. rewrite P0.
-  assert (T : forall E0, (exists r, bind (check_control_statement_loop1 (loop_fuel toks) toks scope 0 E0 v)
-       (fun rs => let '(ret, st) := rs in let '(x_i, E, v) := st in match ret with Some _ => Ok (E, v) | None => Ok (E, v) end) = Ok r) \/
-       bind (check_control_statement_loop1 (loop_fuel toks) toks scope 0 E0 v)
-       (fun rs => let '(ret, st) := rs in let '(x_i, E, v) := st in match ret with Some _ => Ok (E, v) | None => Ok (E, v) end) = Hang).
-  { intros E0. destruct (control_loop_outcomes toks scope (loop_fuel toks) 0 E0 v) as [[[ret [[i1 E1] v1]] R]|R]; [lia|unfold loop_fuel, zlen; lia| |];
-      rewrite R; cbn [bind]; [left; destruct ret; eexists; reflexivity|right; reflexivity]. }
+  assert (T : forall E0, exists r, bind (check_control_statement_loop1 (loop_fuel toks) toks scope 0 E0 v)
+       (fun rs => let '(ret, st) := rs in let '(x_i, E, v) := st in match ret with Some _ => Ok (E, v) | None => Ok (E, v) end) = Ok r).
+  { intros E0. destruct (control_loop_total toks scope (loop_fuel toks) 0 E0 v) as [[ret [[i1 E1] v1]] R]; [lia|unfold loop_fuel, zlen; lia|].
+    rewrite R. cbn [bind]. destruct ret; eexists; reflexivity. }
   destruct (str_eqb (v_scope_name v) (s "GlobalScope")); cbn [emit bind]; apply T.
 Qed.
+
+(* the invocation that did not return before the repair (`<TAB>else(` in a function body, recorded from the implementation:
+   IsControlStatement matches `else` + anything without looking for the closing parenthesis): the scan now ends with the tokens *)
+Definition else_paren_tokens : list token :=
+  [mk_tok (s "TAB") 3 1; mk_tok (s "ELSE") 3 5; mk_tok (s "LPARENTHESIS") 3 9; mk_tok (s "NEWLINE") 3 10; mk_tok (s "RBRACE") 4 1; mk_tok (s "NEWLINE") 4 2].
+Definition else_paren_view : view := mkview [s "IsControlStatement"; s "IsBlockStart"; s "IsFuncDeclaration"] (s "Function") false 1 false false.
+Theorem check_control_statement_returns_on_else_paren : check_control_statement else_paren_tokens 2 else_paren_view = Ok ([], else_paren_view).
+Proof. vm_compute. reflexivity. Qed.
